@@ -415,6 +415,7 @@ func (h *H) addEvalOpt(d evalDesc, kind string, toCoq bool) {
 	out, perr := callField(d.Shape, d.P)
 	deg := degenerate(d.Shape)
 	c := hx.Case{Kind: kind, Desc: d, Key: key(d), Nontriv: true, FailKey: deg}
+	stale := h.reEvaluate(d, out, perr)
 	scale := scaleOf(d.Shape, d.P)
 	tol := 1e-9 * scale
 	switch {
@@ -437,6 +438,9 @@ func (h *H) addEvalOpt(d evalDesc, kind string, toCoq bool) {
 				c.GoFail = fmt.Sprintf("%s value %v differs from the reference distance %v", d.Shape.T, out, want)
 			}
 		}
+		if c.GoFail == "" {
+			c.GoFail = stale
+		}
 	}
 	if deg != "" {
 		h.run.Count("degenerate:" + deg)
@@ -445,6 +449,36 @@ func (h *H) addEvalOpt(d evalDesc, kind string, toCoq bool) {
 		}
 	}
 	h.run.Add(c)
+}
+
+// reEvaluate: a field is a pure function of the point — the same closure asked again after it has been asked at
+// neighbouring points (one coordinate changed at a time), and a second closure built from the same description, must
+// give the very same bits (state carried between calls, sample caches keyed on part of the point, shared scratch data).
+func (h *H) reEvaluate(d evalDesc, first float64, perr string) (fail string) {
+	if perr != "" || math.IsNaN(first) {
+		return ""
+	}
+	defer func() {
+		if r := recover(); r != nil {
+			fail = fmt.Sprint("panic on re-evaluation: ", r)
+		}
+	}()
+	f, g := build(d.Shape), build(d.Shape)
+	if v := f(d.P.vec()); v != first {
+		return fmt.Sprintf("a second field built from the same parameters gives %v at p, the first gave %v", v, first)
+	}
+	for i := 0; i < 3; i++ {
+		q := d.P
+		q[i] += 0.375
+		vq1 := f(q.vec())
+		if v := f(d.P.vec()); v != first {
+			return fmt.Sprintf("the field gives %v at p after it was evaluated at %v, and gave %v before (state carried between calls)", v, q, first)
+		}
+		if v := g(q.vec()); v != vq1 {
+			return fmt.Sprintf("the field gives %v at %v right after it was evaluated at p, a fresh field gives %v (state carried between calls)", vq1, q, v)
+		}
+	}
+	return ""
 }
 
 func (h *H) addPair(d pairDesc, kind string) {
@@ -521,6 +555,57 @@ func mixSeed(z uint64) uint64 {
 	return z ^ (z >> 32)
 }
 
+// panicDesc: Union / Intersect of N fields, VarryingThicknessLine of N points — does the constructor panic?
+type panicDesc struct {
+	Op string `json:"op"` // union intersect vline
+	N  int    `json:"n"`
+}
+
+func (h *H) addPanics(d panicDesc) {
+	c := hx.Case{Kind: "panics", Desc: d, Key: key(d), Nontriv: true}
+	panicked, msg := false, ""
+	func() {
+		defer func() {
+			if r := recover(); r != nil {
+				panicked, msg = true, fmt.Sprint(r)
+			}
+		}()
+		var f sample.Vec3ToFloat
+		switch d.Op {
+		case "union", "intersect":
+			fs := make([]sample.Vec3ToFloat, d.N)
+			for i := range fs {
+				fs[i] = sdf.Sphere(vector3.New(float64(i), 0, 0), 1)
+			}
+			if d.Op == "union" {
+				f = sdf.Union(fs...)
+			} else {
+				f = sdf.Intersect(fs...)
+			}
+		default:
+			lps := make([]sdf.LinePoint, d.N)
+			for i := range lps {
+				lps[i] = sdf.LinePoint{Point: vector3.New(float64(i), 0, 0), Radius: 1}
+			}
+			f = sdf.VarryingThicknessLine(lps)
+		}
+		// a constructor that returned must give a usable field
+		if v := f(vector3.New(0.25, 0, 0)); math.IsNaN(v) {
+			msg = "field evaluates to NaN"
+		}
+	}()
+	op := map[string]int{"union": 0, "intersect": 1, "vline": 2}[d.Op]
+	c.Coq = fmt.Sprintf("(CPanics %d %d %s)", op, d.N, hx.CoqBool(panicked))
+	if !panicked && msg != "" {
+		c.GoFail = msg
+	}
+	if panicked && strings.Contains(msg, "runtime error") {
+		c.GoFail = "crash instead of the declared panic: " + msg
+	}
+	h.run.Count(fmt.Sprintf("panics:%s:n=%d:%v", d.Op, d.N, panicked))
+	h.run.Add(c)
+}
+
 // wideRotations: see the call site
 func (h *H) wideRotations(r *hx.Rng, n int, op string) {
 	sub := make([]Shape, n)
@@ -570,6 +655,11 @@ func main() {
 			var d scaledDesc
 			if json.Unmarshal(in.Raw, &d) == nil {
 				h.addScaled(d)
+			}
+		case "panics":
+			var d panicDesc
+			if json.Unmarshal(in.Raw, &d) == nil {
+				h.addPanics(d)
 			}
 		case "lip-scaled":
 			var d scaledPairDesc
@@ -671,6 +761,12 @@ func main() {
 	for _, nOps := range wides {
 		for _, op := range []string{"union", "intersect"} {
 			h.wideRotations(r, nOps, op)
+		}
+	}
+	// constructors on too few operands: the declared panics, and nothing else panics
+	for _, op := range []string{"union", "intersect", "vline"} {
+		for n := 0; n <= 3; n++ {
+			h.addPanics(panicDesc{op, n})
 		}
 	}
 	// sdf.VarryingThicknessLine: the union of the rounded cones between consecutive points
